@@ -17,6 +17,10 @@ ASC = "forall(lambda a, b: implies(0 <= a and a < b and b < len(result.seq), res
 STORED = ("forall(lambda k: exists(lambda j: 0 <= j < len(self.coords) and self.coords[j] == result.seq[k][0] and self.payloads[j] is result.seq[k][1]), "
           "0, len(result.seq))")
 
+NONEMPTY = "forall(lambda k: not pempty(result.seq[k][1], self.g_default), 0, len(result.seq))"
+COMPLETE = ("forall(lambda j: implies(not pempty(self.payloads[j], self.g_default), exists(lambda k: 0 <= k < len(result.seq) and "
+            "result.seq[k][0] == self.coords[j] and result.seq[k][1] is self.payloads[j])), 0, len(self.coords))")
+
 contract(F, "iterOccupancy", cases=[dict(self="Fiber"), dict(self="Fiber", tick="bool", start_pos="opt[int]")], case_names=["plain", "start_pos"],
          returns="iter[%s]" % ELEM,
          requires=["wf(self)", "not Metrics.collecting"],
@@ -24,7 +28,7 @@ contract(F, "iterOccupancy", cases=[dict(self="Fiber"), dict(self="Fiber", tick=
              # a valid shortcut: nothing before it would have been yielded
              "isnone(start_pos) or (0 <= val(start_pos) < len(self.coords) and forall(lambda j: pempty(self.payloads[j], self.g_default), 0, val(start_pos)))"])},
          modifies=BOOK,
-         ensures={"C07": [ASC, STORED, ALLOCD, "unchanged_list(self.coords)", "unchanged_list(self.payloads)",
+         ensures={"C07": [ASC, STORED, NONEMPTY, COMPLETE, ALLOCD, "unchanged_list(self.coords)", "unchanged_list(self.payloads)",
                           "implies(isnone(start_pos), " + BOOK_SAME + ")"]},
          note="iterRange(None, None): every stored non-empty element, ascending")
 
@@ -54,7 +58,9 @@ contract(F, "__iter__",
              "implies(self.g_leaf and %s, forall(lambda k: typeis(result.seq[k][1], 'Payload'), 0, len(result.seq)))" % BOXES,
              # a presented coordinate is a stored one (compressed) or lies in the active range (uncompressed formats walk the range)
              "forall(lambda k: member(result.seq[k][0], self.coords) or (self.g_active0 <= result.seq[k][0] and result.seq[k][0] < self.g_active1), 0, len(result.seq))",
-             "unchanged_list(self.coords)", "unchanged_list(self.payloads)"]},
+             "unchanged_list(self.coords)", "unchanged_list(self.payloads)",
+             # a compressed rank presents exactly its stored non-empty elements, with their own payload objects
+             "implies(%s == 'C', %s)" % (FMT, STORED), "implies(%s == 'C', %s)" % (FMT, NONEMPTY), "implies(%s == 'C', %s)" % (FMT, COMPLETE)]},
          note="format dispatch proved: 'C' -> iterOccupancy (iterRange(None, None), proved), 'U' -> iterActiveShape (iterRangeShape over getActive(), proved)")
 
 # ---------------------------------------------------------------- counting (C12), leaf rank
@@ -89,3 +95,31 @@ contract(PL, "Payload.payload2dict", cases=[dict(payload="Payload"), dict(payloa
          per_case={"box": dict(ensures=["result == payload.value"]), "scalar": dict(ensures=["result == payload"])},
          ensures={"C13": []},
          note="the dictionary form of a leaf payload is its bare value (sub-fibers recurse through fiber2dict: bounded part)")
+
+# ---------------------------------------------------------------- fiber *= scalar (C11), leaf rank, compressed traversal
+from .payload import COUNTERS
+from .iterators import FMT_OK
+DISTINCT_BOXES = "forall(lambda i, j: implies(i < j, not (self.payloads[i] is self.payloads[j])), 0, len(self.payloads))"
+SCALED = ("forall(lambda j: self.payloads[j].value == (old_value(self.payloads[j]) * other "
+          "if old_value(self.payloads[j]) != self.g_default else old_value(self.payloads[j])), 0, len(self.payloads))")
+contract(FB, "Fiber.__imul__", cases=[dict(self="Fiber", other="U")], case_names=["scalar"], returns="Fiber",
+         requires=["wf(self)", "not Metrics.collecting", "self.g_leaf", BOXES, DISTINCT_BOXES, "%s == 'C'" % FMT],
+         modifies=COUNTERS + ["any:Payload.value"],
+         ensures={"C11": [
+             "result is self",
+             # every element keeps its coordinate and its box; every non-empty box holds the product, empty (default-valued) ones are left alone
+             "unchanged_list(self.coords)", "unchanged_list(self.payloads)", SCALED]},
+         loops={2: dict(types={"p": "Payload|Fiber"}, modifies=COUNTERS + ["any:Payload.value"],
+                        invariant=[
+                            "unchanged_list(self.coords)", "unchanged_list(self.payloads)", BOXES, DISTINCT_BOXES,
+                            "forall(lambda a, b: implies(0 <= a and a < b and b < len(_it2.seq), _it2.seq[a][0] < _it2.seq[b][0]))",
+                            "forall(lambda k: exists(lambda j: 0 <= j < len(self.coords) and self.coords[j] == _it2.seq[k][0] and self.payloads[j] is _it2.seq[k][1]), 0, len(_it2.seq))",
+                            "forall(lambda k: old_value(_it2.seq[k][1]) != self.g_default, 0, len(_it2.seq))",
+                            "forall(lambda j: implies(old_value(self.payloads[j]) != self.g_default, exists(lambda k: 0 <= k < len(_it2.seq) and "
+                            "_it2.seq[k][0] == self.coords[j] and _it2.seq[k][1] is self.payloads[j])), 0, len(self.coords))",
+                            # visited boxes hold the product, all others still hold their old value
+                            "forall(lambda k: _it2.seq[k][1].value == old_value(_it2.seq[k][1]) * other, 0, _i2)",
+                            "forall(lambda j: implies(forall(lambda k: not (_it2.seq[k][1] is self.payloads[j]), 0, _i2), "
+                            "self.payloads[j].value == old_value(self.payloads[j])), 0, len(self.payloads))"])},
+         narrow={"p": "Payload"},
+         note="scalar operand, leaf rank traversed compressed: `for _, p in self: p *= other` (fiber operands and uncompressed ranks: bounded part)")
